@@ -55,6 +55,11 @@ CLAIMS = {
          "_SELECT KEY / UNIQUE directives naming unknown columns through sql.NewTable and sqlcrud.generateTable. Sweeps: typescript, dart (incl. Generate), SQL validators, gounions, randdata on every analysis.Type skeleton "
          "of depth<=1 (quick) / 2 (thorough) over the nine node kinds. NOT decided: the full statement over all well-typed packages (createType on arbitrary go/types graphs, unbounded recursion, packages.Load).",
          "DESIGN.md section 4 (C18)", ""),
+ "C14": ("Decides the request-shape clause on generateMethod/generateAxiosCall/typeIn/typeOut/asObjectKey/convertTypedQueryParams/renderTypes/GenerateAxios for endpoints with symbolic handler, URL, form and query names: method named after the handler, "
+         "Axios.<verb>(fullUrl, ...) with fullUrl = baseUrl + URL, second argument formData / params / null (body-less POST, PUT) / absent, exactly the declared formData.append calls, query object with exactly the declared parameters converted by kind, "
+         "arraybuffer iff blob, `return true` iff no return type, blob + file name for blob routes, every parameter the body uses declared in the signature; file level (1..2 endpoints, concrete names): one method per endpoint, every type a signature mentions "
+         "declared exactly once. One listed known finding (JSON body and query parameters share the `params` argument). Assumes (from the statement) a JSON body or a form, not both. NOT decided: behaviour under Node, TypeScript validity.",
+         "DESIGN.md section 4 (C14)", ""),
  "C05": ("Decides the statement-shape clause. newColumnsCode on tables of 1..3 (4) columns with symbolic exported names and guard flags: the parallel Go/SQL lists are aligned (equal to lists built from one ordered column list), "
          "placeholders are $1..$n, guards excluded, NoPrimary lists = the same lists without the primary column, columnsCount = n. sqlcrud.Generate + generator/sql.Generate on every table shape of a structural catalogue "
          "(with/without primary key named Id or ID, any subset of {string, foreign key, guard, bool} columns, optional UNIQUE and select key): every Query/QueryRow/Exec call of the generated Go text is parsed, its $k placeholders "
